@@ -365,7 +365,7 @@ static void execOp(const Group& T, const Op& o) {
     case K_EXPECT_LEAKS: EXPECT_N_LEAKS((size_t)o.a); break;
     case K_IGNORE_LEAKS: IGNORE_ALL_LEAKS_IN_TEST(); break;
     case K_DIE_SIGNAL: if (PS.inChild) {      // whatever disposition or mask the simulator's own parent handed down (nohup, background job): the child dies by the default action
-        fflush(0); signal((int)o.a, SIG_DFL); sigset_t one; sigemptyset(&one); sigaddset(&one, (int)o.a); sigprocmask(SIG_UNBLOCK, &one, 0); raise((int)o.a); } break;
+        fflush(0); raise((int)o.a); } break;
     case K_DIE_EXIT: if (PS.inChild) _exit((int)o.a); break;
     case K_DIE_ABORT: if (PS.inChild) { signal(SIGABRT, SIG_DFL); abort(); } break;
     case K_DIE_STOP: if (PS.inChild) raise(SIGSTOP); break;       // (SIGSTOP can be neither ignored nor blocked)
@@ -436,7 +436,7 @@ public:
                 result.addFailure(TestFailure(&test, "plugin.cpp", (size_t)o.d, o.s2.c_str()));
             } else if (o.kind == K_DIE_SIGNAL || o.kind == K_DIE_EXIT || o.kind == K_DIE_ABORT) {     // the child dies inside a plugin action (separate-process mode)
                 pushEv(E_OP, t, phase, (int)i, pidx);
-                if (PS.inChild) { if (o.kind == K_DIE_SIGNAL) { fflush(0); signal((int)o.a, SIG_DFL); sigset_t one; sigemptyset(&one); sigaddset(&one, (int)o.a); sigprocmask(SIG_UNBLOCK, &one, 0); raise((int)o.a); } else if (o.kind == K_DIE_EXIT) _exit((int)o.a); else { signal(SIGABRT, SIG_DFL); throwOrAbort(o.b == 1); } }
+                if (PS.inChild) { if (o.kind == K_DIE_SIGNAL) { fflush(0); raise((int)o.a); } else if (o.kind == K_DIE_EXIT) _exit((int)o.a); else { signal(SIGABRT, SIG_DFL); throwOrAbort(o.b == 1); } }
             } else if (o.kind == K_PLUGIN_REMOVE && phase == PH_PRE) {      // a plugin's pre action takes a plugin out of the chain that sits behind it (was installed earlier): that one sees nothing of this test any more
                 pushEv(E_OP, t, phase, (int)i, pidx);
                 size_t q = (size_t)o.a; if (q < RS.pluginObjs.size() && (int)q != pidx) { if (RS.pluginInstalled[q]) fired("plugin_removed_by_a_pre_action"); RS.reg->removePluginByName(RS.pluginObjs[q]->getName()); RS.pluginInstalled[q] = 0; }
@@ -706,6 +706,7 @@ void executeRun(const Desc& d, Obs& o) {
             Obs scratch; RS.o = &scratch;
             Vec<const char*> pav; pav.push_back("prog"); pav.push_back("-sg"); pav.push_back("NoSuchGroup_zz"); pav.push_back("-sn"); pav.push_back("no_such_name_zz");
             if (d.pi("prologue") == 2) pav.push_back("-v");
+            if (d.pi("prologue") == 3) pav.push_back("-s7");      // an order the earlier invocation chose must not cost the later one any test
             { SimRunner pro((int)pav.size(), pav.data(), &reg); (void)pro.runAllTestsMain(); }
             RS.o = &o; RS.primaryOutput = 0; RS.currentTest = -1; RS.testsStartedSoFar = 0;
             simIO().reset(); simClock().reset((uint64_t)d.pi("clock_start"), d.pi("clock_step", 1));
